@@ -35,6 +35,11 @@ SPEC = {
              "session kept alive by heartbeats beyond one lifetime authenticates again on the same connection (before / after the "
              "first lifetime, with refused and tunnel-type handshakes in between, after the client moved and came back) - the records' "
              "ExpiresAt is stamped from the wall clock, FastForward alone cannot age it; "
+             "split consumers: y:<node>.<client> starts a real SendHTTPProxyRequest (m: a real SendCommandToClient) on the node: the "
+             "node-local registry is read at once and, on a miss, the first call on the node's connstate handle parks (one-shot "
+             "parking handle per node); z:/n: lets it go on and return - any events in between, the client's handshake on that node in "
+             "particular (exhaustive words over {y,z,m,n on both nodes, first handshake, same-node / cross-node reconnect, close, "
+             "heartbeat, expiry}, <= 4 / 5 steps, only words in which a request spans an event; random histories; boundary list); "
              "ending-path words (client registered on node 0; alphabet same-node / cross-node reconnect, c e d s k x, old heartbeat; "
              "<= 3 / 4 steps, redis and memory); keep-alive words (heartbeats of both connections, reconnect, late close, ticks of 0.45 / 0.7 lifetimes, <= 3 / 5 steps). "
              "sched (holds-only exploration below the event granularity): the last two events (close||handshake, heartbeat||handshake, "
@@ -76,7 +81,7 @@ SPEC = {
         "of a node that was shut down is not observed (its CrossNodePool is closed); a crashed node's records expire by TTL only",
         "the Disconnect command and the sweep act only on a connection the registry holds; whether the call closed the connection "
         "is part of the observation (connection table before/after) and drives the reference",
-        "lookups are read-only in the model (lookup_is_read_only; source tie skel_lookup_reads + flow_FindClientNode); the one write "
+        "lookups and their consumers are read-only in the model (lookup_is_read_only, consumer_is_read_only; source tie skel_lookup_reads + flow_FindClientNode); the one write "
         "the code can make inside a lookup - GetConnectionState deleting the record it found past its ExpiresAt - concerns the key of "
         "that connection id only and is subsumed by the store's own deadline (not modelled)",
         "cloud runtime state (tunnox:runtime:client:state:<client>, 90 s): a separate component of the model (disjoint key family); "
